@@ -208,7 +208,11 @@ func RxRunRegs(need, nenv, ps0 int, pkts []Pkt, regs map[int][2]int) (res sx.L, 
 	pktIndex := -1
 	for _, p := range pkts {
 		pktIndex++
-		if r, ok := regs[pktIndex]; ok {
+		if r, ok := regs[pktIndex]; ok && r[0] < 0 {
+			// not a registration: the application (or a sender's deferred reset) calls Channel.Reset() between two packets
+			// of a response; that resets the SEND side and must not touch what has been received so far
+			ch.Reset()
+		} else if ok {
 			for i := 0; i < r[0]; i++ {
 				addEed()
 			}
@@ -322,6 +326,19 @@ func feedPacket(ch *tds.Channel, pkt *tds.Packet) bool {
 // ---------------------------------------------------------------- response grammar
 func doneItem(tok, status, tran int, count int64) Item {
 	return Item{tok, pk.Cat(pk.LE16(status), pk.LE16(tran), pk.LE32(count))}
+}
+
+// finalDone: a server DONE with final status (0); transaction state and row count are whatever the server says
+// (e.g. "transaction in progress" after begin transaction), they do not make the DONE any less final
+func finalDone(g *pk.Gen) Item {
+	tok := []int{int(tds.TDS_DONE), int(tds.TDS_DONE), int(tds.TDS_DONEPROC)}[g.Rng.Intn(3)]
+	switch g.Rng.Intn(3) {
+	case 0:
+		return doneItem(tok, 0, 0, 0)
+	case 1:
+		return doneItem(tok, 0, g.Rng.Range(1, 4), 0)
+	}
+	return doneItem(tok, 0, g.Rng.Intn(5), int64(g.Rng.Range(1, 1000)))
 }
 
 func eedItem(g *pk.Gen, info bool) Item {
@@ -463,11 +480,11 @@ func Response(g *pk.Gen) []Item {
 	}
 	switch g.Rng.Intn(4) {
 	case 0: // server sends the final DONE itself
-		items = append(items, doneItem(int(tds.TDS_DONE), 0, 0, 0))
+		items = append(items, finalDone(g))
 	case 1: // last DONE with other status bits: the library has to supply the final one
 		items = append(items, doneItem(int(tds.TDS_DONE), []int{0x10, 0x2, 0x18, 0x4}[g.Rng.Intn(4)], 0, int64(g.Rng.Intn(9))))
 	case 2: // final DONE preceded by a message
-		items = append(items, eedItem(g, g.Rng.Bool()), doneItem(int(tds.TDS_DONE), 0, 0, 0))
+		items = append(items, eedItem(g, g.Rng.Bool()), finalDone(g))
 	}
 	return items
 }
@@ -604,7 +621,7 @@ func GenRx(g *pk.Gen) {
 			case 1:
 				items = []Item{envItem(g, g.Rng.Range(0, 2))}
 			case 2:
-				items = []Item{doneItem(int(tds.TDS_DONE), 0, 0, 0)}
+				items = []Item{finalDone(g)}
 			default:
 				items = Response(g)
 			}
@@ -634,6 +651,9 @@ func GenRx(g *pk.Gen) {
 					continue
 				}
 				regs[idx] = [2]int{g.Rng.Intn(3), g.Rng.Intn(3)}
+				if g.Rng.Intn(3) == 0 {
+					regs[idx] = [2]int{-1, -1} // Channel.Reset() instead of a registration (the model: nothing happens)
+				}
 			}
 			need, nenv := g.Rng.Intn(2), g.Rng.Intn(2)
 			res, fed := RxRunRegs(need, nenv, 512, pkts, regs)
@@ -920,7 +940,7 @@ func GenConsumer(g *pk.Gen) {
 			case 1:
 				items = []Item{envItem(g, 1)}
 			case 2:
-				items = []Item{doneItem(int(tds.TDS_DONE), 0, 0, 0)}
+				items = []Item{finalDone(g)}
 			default:
 				items = Response(g)
 			}
@@ -1054,6 +1074,12 @@ func WireBytes(pkts []Pkt) []byte {
 }
 
 func TransportRun(segs [][]byte, end int, timeoutSec int) (sx.T, float64) {
+	return transportRun(segs, end, timeoutSec, false)
+}
+
+// transportRun: with drain set the consumer uses NextPackageUntil(ctx, true, nil) - "read up to the final DONE" - instead
+// of NextPackage; output (responsesDrained errorClass): errorClass 1 = an error that is neither the context's nor io.EOF
+func transportRun(segs [][]byte, end int, timeoutSec int, drain bool) (sx.T, float64) {
 	info := &tds.Info{}
 	info.ChannelPackageQueueSize = 100000
 	info.PacketReadTimeout = timeoutSec
@@ -1102,6 +1128,27 @@ wait:
 	cerrs := 0
 	for ch.VerifNextErr() != nil {
 		cerrs++
+	}
+	if drain {
+		n := 0
+		class := 0
+		for i := 0; i < 10000; i++ {
+			ctx, cancel := context.WithTimeout(context.Background(), 250*time.Millisecond)
+			_, err := ch.NextPackageUntil(ctx, true, nil)
+			cancel()
+			if err == nil || err == io.EOF {
+				n++
+				continue
+			}
+			if errors.Is(err, context.DeadlineExceeded) {
+				class = 2
+			} else {
+				class = 1
+			}
+			break
+		}
+		conn.VerifCancel()
+		return sx.L{sx.I(int64(n)), sx.I(int64(class))}, elapsed
 	}
 	// the consumer waits for its packages (wait = true, as the drivers do): every package parsed from completely
 	// received packets must come before the error, although the error has been queued for a long time by now
@@ -1234,6 +1281,18 @@ func GenTransport(g *pk.Gen) {
 			emit(k, []int{k}, (k/step)%3, "cut-offset")
 		}
 		emit(len(wire), []int{len(wire)}, 0, "complete")
+		// the same failure offsets with a consumer that reads "up to the final DONE" (NextPackageUntil without callback):
+		// a response that was cut off must end in the transport's error, never in the end-of-response signal
+		if g.WantTag("drain-cut") && !tooManyHangs() {
+			dstep := step
+			if !g.Thorough && len(wire) > 60 {
+				dstep = len(wire)/20 + 1
+			}
+			for k := 0; k <= len(wire); k += dstep {
+				res, _ := transportRun([][]byte{wire[:k]}, (k/dstep)%3, 0, true)
+				g.Out.Case(17, sx.L{sx.B(wire), sx.L{sx.I(int64(k))}, sx.I(int64(k)), sx.I(int64((k / dstep) % 3))}, res, "drain-cut")
+			}
+		}
 		// peer close inside a packet body with a live read timeout (1 s): the reader keeps reading until the timeout
 		// and then reports; offsets: body short by exactly one header size, by one byte, an empty body, a random one.
 		// These cases cost one second each and run in parallel.
